@@ -42,6 +42,18 @@ def cases(rng, tier):
     # valid (and invalid) strings that are also the names of files in the current working directory
     for raw in ("README", "LICENSE", "DATA", "tests", "misc", "KKKKKKKKKK", "ACDEFGHIKLMNPQRSTVWY", "setup", "Makefile", "data.txt", "mk ed"):
         yield Case(["mkcwd %s seq" % hex6(raw), "mkcwd %s fcr" % hex6(raw)], {"kind": "namesake-file-in-cwd"})
+    for wd in gen.AMBIGUOUS_WORDS:
+        yield mk(wd, {"kind": "ambiguous-word"}, analyses=True)
+    # the SAME invalid character at two or three places (and two different ones)
+    base = "MKVLLADEKR"
+    for ch in "-X*1.bZ_\x00" + chr(0xe9):
+        for i, j in ((3, 5), (0, 10), (2, 2), (4, 9)):
+            t = base[:i] + ch + base[i:j] + ch + base[j:]
+            yield mk(t, {"kind": "invalid-character-twice"})
+        yield mk(ch + base[:5] + ch + base[5:] + ch, {"kind": "invalid-character-thrice"})
+        yield mk(base[:4] + ch + base[4:7] + "?" + base[7:], {"kind": "two-invalid-characters"})
+    sq = gen.rand_seq(rng, "idp", 500)
+    yield mk(" ".join(sq[i:i + 10] for i in range(0, 500, 10)), {"kind": "many-white-space-runs"}, analyses=True)
     for n in (1, 2, 5):
         for c in (" ", "\t", "\n", " ", " \t\r\n"):
             yield mk(c * n, {"kind": "blank"})
